@@ -408,6 +408,20 @@ class _Run:
                         except Exception as e:
                             res.append([j, _err(e)])
                 obs.append({"k": "getitem", "res": res})
+                # the same through the multi-name form t[(n,)] / t[n, n]: the selected column is a copy, recognised by its cells
+                cells = [[(type(x).__name__, repr(x)) for x in c] for c in t.cols()]
+                if len({tuple(c) for c in cells}) == len(cells) and cells and cells[0]:
+                    res2 = []
+                    self.log.append("[t[(n,)] for n in t.column_names() if n is not None]   # first column with that stored name")
+                    for j, n in enumerate(final):
+                        if isinstance(n, str):
+                            try:
+                                sel = t[(n,)] if j % 2 == 0 else t[n, n]
+                                got = [(type(x).__name__, repr(x)) for x in sel.cols()[0]]
+                                res2.append([j, cells.index(got) if got in cells else -1])
+                            except Exception as e:
+                                res2.append([j, _err(e)])
+                    obs.append({"k": "getitem", "res": res2})
             elif k == "repr":
                 self.log.append("print(repr(t))   # dot row")
                 pd = parse_dot(repr(t), final)
